@@ -23,3 +23,8 @@ Definition run_parse_file (src : str) : str := run_parse repo_uclass EFile src.
 Definition run_parse_expr (src : str) : str := run_parse repo_uclass EExpr src.
 Definition run_parse_stmt (src : str) : str := run_parse repo_uclass EStmt src.
 Definition run_parse_stmts (n : nat) (src : str) : str := run_parse repo_uclass (EStmts n) src.
+
+Definition run_state_file (src : str) : str * str := run_parse_state repo_uclass EFile src.
+Definition run_state_expr (src : str) : str * str := run_parse_state repo_uclass EExpr src.
+Definition run_state_stmt (src : str) : str * str := run_parse_state repo_uclass EStmt src.
+Definition run_state_stmts (n : nat) (src : str) : str * str := run_parse_state repo_uclass (EStmts n) src.
